@@ -5,7 +5,7 @@ from fam_exec import run_adapter_resilient, collect
 
 class Interchain(Family):
     name = "Interchain"
-    props = ["C02", "C03", "C04", "C05", "C06", "C16", "C17"]
+    props = ["C02", "C03", "C04", "C05", "C06", "C16", "C17", "C07", "C08", "C14"]
     adapter = "interadp"
     trace_module = "InterchainTrace.tla"
     trace_cfg = "InterchainTrace.cfg"
@@ -32,6 +32,9 @@ class Interchain(Family):
                        "C05": "non-trivial = trace with a group that received a report or expired",
                        "C06": "non-trivial = trace where a request with finite timeout reaches its expiry height (with or without receipt)",
                        "C16": "non-trivial = trace with IBTP traffic after a service / appchain status change or to an unregistered destination",
+                       "C07": "non-trivial = block with a FAILED IBTP / governance / direct call whose state delta against the sibling node was attributable",
+                       "C08": "non-trivial = executed block of an interchain scenario (IBTPs incl. grouped and timed-out ones, governance, direct calls)",
+                       "C14": "non-trivial = block whose balances were checked",
                        "C17": "surface scenarios: on a live context (accepted and finished IBTPs, an open proposal) every exported method of every registered contract, enumerated by reflection, is invoked directly by an outsider, by the admin of another appchain and by a governance admin with well-typed arguments drawn from the live ids; non-trivial = trace with direct calls of internal or privileged entry points; distinct by (contract, method, role)"}[prop]
 
     def nontrivial(self, events, prop):
@@ -50,6 +53,10 @@ class Interchain(Family):
             return any(e["tmeta"] for e in blocks) or any(t["typ"] == "REQ" and t["T"] in (1, 2, 3) and t["status"] == "SUCCESS" for t in ib)
         if prop == "C17":
             return any(t.get("cls") in ("surface", "direct") for t in txs)
+        if prop == "C07":
+            return any(e.get("failed") and e.get("attributable") for e in blocks)
+        if prop in ("C08", "C14"):
+            return len(blocks) > 0
         return any(t["k"] == "gov" for t in txs) or any(t["ret"] == "begin_failure" for t in ib)
 
     def gen_and_run(self, ctx, prop, tier):
@@ -58,6 +65,8 @@ class Interchain(Family):
         env = dict(os.environ, TMPDIR=ctx.dir)
         traces = []
         modes = [("", n), ("group", n // 2 if prop != "C05" else n), ("timed", n // 2 if prop not in ("C04", "C06") else n)]
+        if prop == "C16":
+            modes = [("lifecycle", n), ("", n // 2)]
         if prop == "C17":
             # every exported method of every registered contract (reflection) x caller role, on a live context
             modes = [("surface", 3 if q else 12), ("", n // 3)]
